@@ -20,8 +20,10 @@ package props
 //   * malformed / extended streams that the library's own encoders never produce: Go decoder vs SPEC
 //     decoder; both succeed => same values; every other combination is either one of the
 //     asymmetries listed (and justified) at runMalformed or an observation with a stable key.
-// L2 (mirror): Go encoder bytes == Lean MIRROR encoder bytes, byte-exact, on the build this binary
-//   was compiled for (ctx.Variant = asm | purego).
+// L2 (mirror): Go encoder bytes == Lean MIRROR encoder bytes, byte-exact, and Go decoder outcome ==
+//   Lean MIRROR decoder outcome (values when both accept, accept/reject otherwise) on every stream
+//   of this file (own encodings, foreign conformant, malformed), on the build this binary was
+//   compiled for (ctx.Variant = asm | purego).
 //
 // Corpus / replay line formats (also the canonical text of a case):
 //   i32 <ints> | i64 <ints> | dlba <vals> | dba <vals> | flba <size> <hex>
@@ -805,12 +807,60 @@ func (w *c04dWorker) runInt(c c04dCase) {
 				map[string]any{"case": canon, "bytes": refHex, "spec": c04dClip(ans)})
 		}
 	})
+	w.godec(strconv.Itoa(bits), refHex, "ok "+core.JoinInts(c.ints), canon, false)
 	w.ask(fmt.Sprintf("delta.enc%d %s", bits, core.JoinInts(c.ints)), func(ans string) {
 		if ans != "ok "+refHex {
 			ctx.Fail("L2", "delta-"+c.kind+"-mirror-bytes", "Go encoder bytes differ from the Lean mirror ("+ctx.Variant+" build)",
 				map[string]any{"case": canon, "impl": refHex, "model": c04dClip(ans)})
 		}
 	})
+}
+
+// L2 for the decoders: the real Go decoder's outcome vs the Lean mirror of the portable decoder
+// (ops *.godec*). goRes is "ok <canonical output>" or "err …"; values must agree when both accept,
+// and accept/reject must agree. The mirror answers "err overwide" for a used miniblock width above
+// the type's (bitpack.Unpack's result is implementation defined there): not compared.
+func (w *c04dWorker) godec(kind, rawHex, goRes, canon string, malformed bool) {
+	ctx := w.ctx
+	op := map[string]string{"32": "delta.godec32", "64": "delta.godec64", "dlba": "dlba.godec", "dba": "dba.godec"}[kind]
+	w.ask(op+" "+rawHex, func(ans string) {
+		if ans == "err overwide" {
+			ctx.Hist("decoder-mirror-"+kind, "not-compared-overwide")
+			return
+		}
+		goOK, mOK := strings.HasPrefix(goRes, "ok "), strings.HasPrefix(ans, "ok ")
+		if (goOK && mOK && goRes == ans) || (!goOK && !mOK && strings.HasPrefix(ans, "err ")) {
+			if goOK {
+				ctx.Hist("decoder-mirror-"+kind, "both-ok-equal")
+			} else {
+				ctx.Hist("decoder-mirror-"+kind, "both-reject")
+			}
+			return
+		}
+		detail := map[string]any{"case": c04dClip(canon), "impl": c04dClip(goRes), "model": c04dClip(ans)}
+		if malformed && kind == "dba" && ctx.Variant == "asm" {
+			// the assembly DELTA_BYTE_ARRAY decoder differs from the portable one on malformed / extended
+			// streams (observations maldba-accepts-prefix-longer-than-previous-value, maldba-trailing-bytes-change-values)
+			ctx.Hist("decoder-mirror-"+kind, "asm-differs-on-malformed")
+			ctx.Observe("maldba-asm-decoder-differs-from-portable-mirror", "on a malformed or extended stream the assembly DELTA_BYTE_ARRAY decoder and the Lean mirror of the portable decoder disagree", detail)
+			return
+		}
+		ctx.Fail("L2", "delta-"+kind+"-decoder-mirror", "the Go decoder and the Lean mirror of the portable decoder disagree ("+ctx.Variant+" build)", detail)
+	})
+}
+
+// raw outcome of LengthByteArrayEncoding.DecodeByteArray in the format of `dlba.godec`
+func c04dGoDecodeDLBARaw(raw []byte) (res string) {
+	defer func() {
+		if p := recover(); p != nil {
+			res = "panic " + fmt.Sprint(p)
+		}
+	}()
+	data, offs, err := (&delta.LengthByteArrayEncoding{}).DecodeByteArray(nil, raw, nil)
+	if err != nil {
+		return "err " + err.Error()
+	}
+	return "ok " + core.Hex(data) + " " + core.JoinInts(offs)
 }
 
 // copy of b whose backing array continues with 96 bytes of `fill` beyond len
@@ -934,6 +984,11 @@ func (w *c04dWorker) runBytes(c c04dCase) {
 				map[string]any{"case": canon, "bytes": refHex, "spec": c04dClip(ans)})
 		}
 	})
+	if kind == "dlba" {
+		w.godec("dlba", refHex, "ok "+core.Hex(w.decB)+" "+core.JoinInts(w.decOff), canon, false)
+	} else {
+		w.godec("dba", refHex, "ok "+c04dVals(c.vals), canon, false)
+	}
 	w.ask(kind+".enc "+c04dVals(c.vals), func(ans string) {
 		if ans != "ok "+refHex {
 			ctx.Fail("L2", kind+"-mirror-bytes", "Go encoder bytes differ from the Lean mirror ("+ctx.Variant+" build)",
@@ -985,6 +1040,7 @@ func (w *c04dWorker) runFLBA(c c04dCase) {
 				map[string]any{"case": canon, "bytes": refHex, "spec": c04dClip(ans)})
 		}
 	})
+	w.godec("dba", refHex, "ok "+c04dVals(vals), canon, false)
 	w.ask(fmt.Sprintf("dba.encflba %d %s", c.size, core.Hex(c.raw)), func(ans string) {
 		if ans != "ok "+refHex {
 			ctx.Fail("L2", "dba-flba-mirror-bytes", "Go encoder bytes differ from the Lean mirror ("+ctx.Variant+" build)",
@@ -1178,6 +1234,11 @@ func (w *c04dWorker) runConformant(c c04dCase) {
 			"the Go decoder does not return the encoded values from a spec-conformant stream written by another encoder (legal block/miniblock geometry, widths, frame of reference the library's own encoder never uses)",
 			map[string]any{"case": c04dClip(canon), "go": c04dClip(goRes)})
 	}
+	if c.kind == "confdlba" {
+		w.godec("dlba", rawHex, c04dGoDecodeDLBARaw(c04dBeyond(c.raw, 0xFF)), canon, false)
+	} else {
+		w.godec(strings.TrimPrefix(c.kind, "conf"), rawHex, goRes, canon, false)
+	}
 	w.ask(op+" "+rawHex, func(ans string) {
 		if ans != want+" -" {
 			ctx.Fail("L1", name+"-spec-decode-conformant-foreign-geometry",
@@ -1292,6 +1353,11 @@ func (w *c04dWorker) runMalformed(c c04dCase) {
 		ctx.Hist(c.kind+"-outcome", "go-panic")
 		ctx.Observe(c.kind+"-decoder-panics", "the Go decoder panics on a malformed stream instead of returning an error", detail(""))
 		return
+	}
+	if c.kind == "maldlba" {
+		w.godec("dlba", rawHex, c04dGoDecodeDLBARaw(c04dBeyond(c.raw, 0x00)), canon, true)
+	} else {
+		w.godec(strings.TrimPrefix(c.kind, "mal"), rawHex, goRes, canon, true)
 	}
 	w.ask(op+" "+rawHex, func(spec string) {
 		goOK, specOK := strings.HasPrefix(goRes, "ok "), strings.HasPrefix(spec, "ok ")
